@@ -10,7 +10,7 @@ claim("C01",
       "DESIGN.md §8 C01, §13")
 claim("C02",
       'Lean 4 proof: data path (split implementation = behavior() for every instruction and state) and control refinement by completion functions (pipeline with stalls, flushes, ecall drain = sequential execution), progress and termination; cycle-accurate correspondence of the pipeline model with the real pipeline',
-      '24 theorems. Props/C02Split.lean: split_agrees & companions (every supported instruction, every state, faults incl.). Props/C02.lean: shape invariant and its preservation, abs_step (one cycle = one sequential step on the completion-function abstraction or a stutter; interlock, ECALL drain, EX/MEM/WB flushes), pipe_refines_seq for every number of cycles, retire_order, final_state (registers, data memory SYSTEM incl. cache state and counters, output, exit code, retired/branch/procedure counts, pc, retire log = sequential trace, k = first sequential done step), fault_agrees and its converse fault_complete, younger_no_effect, pipe_progress (K = 5) and pipe_terminates. The composition of the two halves into one statement about Rv.singleStep is being added (DESIGN.md §13). Correspondence: full latch + stall-bookkeeping snapshot after every cycle on generated programs incl. dense data-flow chains; oracle: real single-cycle vs real five-stage.',
+      '29 theorems. Props/C02Split.lean: split_agrees & companions (every supported instruction, every state, faults incl.). Props/C02.lean: shape invariant and its preservation, abs_step (one cycle = one sequential step on the completion-function abstraction or a stutter; interlock, ECALL drain, EX/MEM/WB flushes), pipe_refines_seq for every number of cycles, retire_order, final_state (registers, data memory SYSTEM incl. cache state and counters, output, exit code, retired/branch/procedure counts, pc, retire log = sequential trace, k = first sequential done step), fault_agrees and its converse fault_complete, younger_no_effect, pipe_progress (K = 5) and pipe_terminates. Props/C02Main.lean composes the halves: pipe_equals_single_cycle (a fault-free five-stage run that stops after n cycles <=> the single-cycle loop stops after k <= n steps with equal registers, data memory, output, exit code, instruction/branch/procedure counts, pc and retire log = single-cycle execution order), pipe_terminates_when_single_does, fault_agrees_single_cycle. Correspondence: full latch + stall-bookkeeping snapshot after every cycle on generated programs incl. dense data-flow chains; oracle: real single-cycle vs real five-stage.',
       TB + "As C01. Hypotheses ProgOK (constructor-shaped instructions) and ICoh (instruction memory returns the stored instruction; C11 with an icache). After a fault the modes differ in instruction_count (proved: split_fault_instruction_count); the property claims registers/memory/output there.",
       'DESIGN.md §8 C02, §13')
 claim("C03",
@@ -20,7 +20,7 @@ claim("C03",
       "DESIGN.md §8 C03")
 claim("C04",
       'Lean 4 theorems on the assembler model (Model.Asm = transcription of the pyparsing grammar + the five passes): expansion laws, label binding, displacements, control transfer; correspondence of the whole assembler incl. front end on grammar-derived and fault-injected texts; denotational oracle',
-      '30 theorems (Props/C04.lean): expansion_in_context/uniform/identity, documented effect of nop/mv/li groups, label_denotes_next_instruction, inline_label_denotes_first_instruction (incl. expanding pseudo-instructions, bound once), label_at_end, instructions_in_order / instruction_address (instruction j at 4j), branch/jal displacement theorems for label, label+offset and numeric operands, *_transfers through singleStep. Front end: the printer->parser round trip is C14; spelling independence (ABI/xN, case, dec/hex/bin, operand forms, comments, blank lines) is tied by correspondence on independently spelled renderings of the same abstract program and checked by the oracle (asm-pair cases), not a theorem.',
+      '34 theorems (Props/C04.lean): expansion_in_context/uniform/identity, documented effect of nop/mv/li groups, label_denotes_next_instruction, inline_label_denotes_first_instruction (incl. expanding pseudo-instructions, bound once), label_at_end, instructions_in_order / instruction_address (instruction j at 4j), branch/jal displacement theorems for label, label+offset (even; odd offsets rejected: *_odd_rejected, label_displacement_even_iff) and numeric operands, *_transfers through singleStep. Front end: the printer->parser round trip is C14; spelling independence (ABI/xN, case, dec/hex/bin, operand forms, comments, blank lines) is tied by correspondence on independently spelled renderings of the same abstract program and checked by the oracle (asm-pair cases), not a theorem.',
       TB + "pyparsing 3.3.2 is modelled for the grammar subset used (Model.PP), not verified. Spelling-independence of the front end is by correspondence + oracle only. Known finding F8 (labels named nop/ecall/ebreak).",
       'DESIGN.md §8 C04, §13')
 claim("C05",
@@ -70,7 +70,7 @@ claim("C13",
       'DESIGN.md §8 C13')
 claim("C14",
       'Lean 4 round-trip theorem printer -> parser -> instantiation on the models for every instruction, register, immediate and address; listing fix-point through the whole load pipeline; correspondence; oracle = real repr through the real assembler',
-      '8 theorems (Props/C14.lean): numeral_roundtrip_dec/hex, register_roundtrip, repr_roundtrip and repr_roundtrip_tree (every Canon instruction except FENCE at every address: parseLine of the printed form instantiates to the same object; all 15 grammar alternatives and longest-match ties handled), canon_of_instantiate, listing_fixpoint (<= 4096 instructions, through sanitize/tokenize/segment/expand/labels/build). The former counterexample for label+odd offset was repaired in /repo (de456dd) — model and theorems are being updated to the repaired behaviour (DESIGN.md §13).',
+      '12 theorems (Props/C14.lean): numeral_roundtrip_dec/hex, register_roundtrip, repr_roundtrip and repr_roundtrip_tree (every Canon instruction except FENCE at every address: parseLine of the printed form instantiates to the same object; all 15 grammar alternatives and longest-match ties handled), grammar_sound (parser soundness), canon_of_instantiate (every instruction the assembler builds is Canon, label forms included), listing_fixpoint, built_listing_fixpoint, loaded_program_built and loaded_listing_fixpoint: re-loading the printed listing of ANY successfully loaded program reproduces the program. The proof attempt first produced a proved counterexample (label + odd offset), repaired in /repo by de456dd.',
       TB + "Side conditions: csr number >= 0, |jal target| < 10^4300 (Python str/int digit limit is not modelled in intToDec).",
       'DESIGN.md §8 C14, §13')
 claim("C15",
